@@ -17,13 +17,13 @@ RULE = ('cells = (wavelet, J in 1..3, HxW multiples of 2^J incl. non-square and 
 ASSUMPTIONS = ['pywt.swt2 (periodic boundary) is the specification', 'float64', 'sides <= 48, J <= 3']
 TIMEOUT = {'quick': 900, 'thorough': 3000}
 WORKER_BUDGET = {'quick': 600, 'thorough': 2400}
-MIN_HELD = {'quick': 200, 'thorough': 2000}
+MIN_HELD = {'quick': 200, 'thorough': 1000}
 
 
 def cells(tier, seed):
     rnd = core.rng_for(seed, PROP, tier)
     out = []
-    reps = 2 if tier == 'quick' else 10
+    reps = 2 if tier == 'quick' else 40
     for w in refs.all_wavelets():
         for _ in range(reps):
             J = rnd.choice([1, 2, 2, 3])
